@@ -31,7 +31,7 @@ ANCHORS = {'NmVerif.Functional.applyFn': 'functional::apply_function_t<functor_t
            'NmVerif.Functional.generateAlias': 'index::generate_alias (index/alias.hpp:60-88)'}
 MANIFEST = dict(
     text='Proof: Lean theorems over ARBITRARY functors (any arity, any operand/attribute types): currying in every split equals one call (curry_any_split, curry_chunks), composition = apply the right-most functor and pass the rest on (comp_apply, comp_two), parenthesisation irrelevant (comp_assoc), combinators are the stated permutations, and a compiler-correctness theorem for extraction (compile_correct/compile_frame: extracted composition applied to extracted operands = host evaluation, by induction on the view tree) on the trees where it holds — with a machine-checked counterexample outside; tied to the C++ by differential runs of the real functor machinery (probe functors), of the array/functional functors against direct view calls, and of extraction / operand identity / compute graphs on view trees.',
-    note='Lean kernel + propext/Classical.choice/Quot.sound. Node-id uniqueness of the compute graph is not a theorem (ids are hashes mod 1033 and graph-size counters): checked per explored program. Known findings: extraction is wrong when a view operand is not the first operand; dangling reference in get_function_composition.',
+    note='Lean kernel + propext/Classical.choice/Quot.sound. Node-id uniqueness of the compute graph is not a theorem (ids are hashes mod 1033 and graph-size counters): checked per explored program. Known findings: extraction is wrong when a view operand is not the first operand; compute-graph ids of sibling sub-views over un-aliased leaves collide. Repaired: dangling reference in get_function_composition (regression programs kept; ASan build in the thorough tier).',
     technique='Lean 4 proofs over an abstract stack machine (compiler correctness by mutual structural induction) + differential correspondence')
 ASSUMPTIONS = ['functors are pure functions of (attributes, operands)',
                'compute-graph node ids pairwise distinct (hypothesis of graph_nodes / graph_edges; explored, not proved)']
@@ -39,7 +39,11 @@ PARTIAL = []
 
 
 def harness_specs(tier):
-    return ([dict(name='h_c14_probe', src='h_c14_probe.cpp', flavour='fast')] +
+    san = []
+    if tier == 'thorough':
+        # extraction under ASan + UBSan (lifetime errors of get_function_composition / get_function_operands are results)
+        san = [dict(name='h_c14_ext%d_san' % g, src='h_c14_ext.cpp', flavour='san', extra=['-DC14_GROUP=%d' % g]) for g in SAN_GROUPS]
+    return san + ([dict(name='h_c14_probe', src='h_c14_probe.cpp', flavour='fast')] +
             [dict(name='h_c14_ext%d' % g, src='h_c14_ext.cpp', flavour='fast', extra=['-DC14_GROUP=%d' % g]) for g in EXT_GROUPS] +
             [dict(name='h_c14_fn%d' % g, src='h_c14_fn.cpp', flavour='fast', extra=['-DC14_FN_GROUP=%d' % g]) for g in FN_GROUPS])
 
@@ -266,7 +270,8 @@ def _ext_progs():
     pr = {}
 
     def add(name, group, tree, gen, graph=False, nonfirst=False, bview=False, sibling=False, data='prov'):
-        # nonfirst: a view operand that is not the first operand; bview: binary ufunc over a view operand (dangling reference);
+        # nonfirst: a view operand that is not the first operand; bview: binary ufunc over a view operand (regression class of the
+        # repaired dangling reference in get_function_composition: ordinary in-domain programs);
         # sibling: two sibling sub-views over un-aliased leaves (compute-graph node ids collide)
         pr[name] = dict(group=group, tree=tree, gen=gen, graph=graph, nonfirst=nonfirst, bview=bview, sibling=sibling, data=data)
 
@@ -343,6 +348,7 @@ def _ext_progs():
 
 EXT = _ext_progs()
 EXT_GROUPS = [1, 2, 3, 4, 5, 6, 7]
+SAN_GROUPS = [2, 3, 5, 6, 7]      # the groups with binary ufuncs over view operands / depth 3-4 trees
 
 
 def parse_kv(ans):
@@ -477,7 +483,7 @@ def ext_cases(tier, rng):
                 continue
             made += 1
             req = ' '.join(('c14_extract prog=%s shapes=%s %s data=%s' % (name, fmt_lists(shapes), fmt_params(params), pg['data'])).split())
-            off = pg['nonfirst'] or pg['bview']
+            off = pg['nonfirst']
             oracle = 'ok leaves=%s result=%s' % (fmt(tree_leaves(t)), fmt_arr(res))
             yield Case(req, h, dom=not off, oracle=oracle, mreq='c14_extract tree=%s' % tplain, cmp=make_extract_cmp(env, params),
                        tags=['extract', 'prog=' + name, 'depth=%d' % tree_depth(t)] + (['nonfirst'] if pg['nonfirst'] else []) + (['bview'] if pg['bview'] else []))
@@ -644,7 +650,13 @@ def fn_cases(tier, rng):
 
 def gen(tier, rng):
     yield from probe_cases(tier, rng)
-    yield from ext_cases(tier, rng)
+    k = 0
+    for c in ext_cases(tier, rng):
+        yield c
+        k += 1
+        g = int(c.harness[len('h_c14_ext'):]) if c.harness.startswith('h_c14_ext') else 0
+        if tier == 'thorough' and c.dom and c.req.startswith('c14_extract') and g in SAN_GROUPS and k % 3 == 0:
+            yield Case(c.req, c.harness + '_san', dom=True, oracle=c.oracle, model=False, cmp=c.cmp, nontrivial=False, tags=list(c.tags) + ['san'])
     yield from fn_cases(tier, rng)
 
 
@@ -656,13 +668,8 @@ def nonfirst_view_operand(c):
     return c.req.startswith('c14_extract ') and EXT.get(_args(c).get('prog'), {}).get('nonfirst', False)
 
 
-def ufunc_view_operand(c):
-    return c.req.startswith('c14_extract ') and EXT.get(_args(c).get('prog'), {}).get('bview', False)
-
-
 def sibling_subviews_unaliased(c):
     return c.req.startswith('c14_graph ') and EXT.get(_args(c).get('prog'), {}).get('sibling', False)
 
 
-KNOWN_PREDICATES = {'nonfirst_view_operand': nonfirst_view_operand, 'ufunc_view_operand': ufunc_view_operand,
-                    'sibling_subviews_unaliased': sibling_subviews_unaliased}
+KNOWN_PREDICATES = {'nonfirst_view_operand': nonfirst_view_operand, 'sibling_subviews_unaliased': sibling_subviews_unaliased}
